@@ -209,7 +209,14 @@ static int32_t wr_index(struct jls_core_fsr_s * self, uint8_t level) {
 static int32_t wr_summary(struct jls_core_fsr_s * self, uint8_t level) {
     struct jls_core_fsr_level_s * dst = self->level[level];
     if (!dst->summary->header.entry_count) {
-        return 0;
+        // No complete summary entry.  The pending index entries may only be dropped when they
+        // are not needed to reach the chunks below: nothing pending, or this would be the first
+        // chunk of a level above 1 (then the single chunk one level down is the top of the tree).
+        // Level 1 is always needed to locate the data chunks.
+        struct jls_core_track_s * track = &self->parent->tracks[JLS_TRACK_TYPE_FSR];
+        if (!dst->index->header.entry_count || ((level > 1) && !track->head_offsets[level])) {
+            return 0;
+        }
     }
     int64_t pos_next = jls_raw_chunk_tell(self->parent->parent->raw);
     ROE(wr_index(self, level));
